@@ -16,7 +16,7 @@ from .exprs import PREC, NEG_PREC
 
 PCT_PREC = 6
 
-NUMS = ['1', '1.5', '.5', '1E+2', '2.5E-3']
+NUMS = ['1', '1.5', '.5', '1E+2', '2.5E-3', '10E+3', '12.5E-1', '0.5E+3']
 BOOLS = ['TRUE', 'FALSE']
 ERRS = ['#NULL!', '#DIV/0!', '#VALUE!', '#REF!', '#NAME?', '#NUM!', '#N/A']
 REFS = ['A1', '$A$1', 'A$1', '$A1', 'AB12', 'Sheet2!A1', 'Sheet2!$A$1',
